@@ -577,8 +577,14 @@ func (ch *c08Child) attempt(op *c08Op) (int, string) {
 			}
 			mark := ch.logbuf.Len()
 			syscall.Kill(os.Getpid(), syscall.SIGUSR1)
+			sent := time.Now()
 			for {
 				s := ch.logbuf.From(mark)
+				if !strings.Contains(s, "SIGUSR1: Reloading") && time.Since(sent) > 300*time.Millisecond {
+					// the handler goroutine had not installed signal.Notify yet: the signal was lost
+					syscall.Kill(os.Getpid(), syscall.SIGUSR1)
+					sent = time.Now()
+				}
 				if i := strings.Index(s, "[ERROR] SIGUSR1:"); i >= 0 && strings.Contains(s[i:], "\n") {
 					line := s[i:]
 					line = line[:strings.Index(line, "\n")]
